@@ -128,7 +128,7 @@ def check(ctx):
     for i in range(n):
         k = ["ph", "ip", "sop"][i % 3]
         if k == "sop":
-            cap, el = ctx.rng.choice([(4, 8), (3, 24), (1, 64), (5, 12)])
+            cap, el = ctx.rng.choice([(4, 8), (3, 24), (1, 64), (5, 12), (3, 128), (3, 128)])      # (3, 128): an element type with alignas(64)
         else:
             cap, el = ctx.rng.randrange(1, 9), ctx.rng.choice([8, 16, 24, 64])
         pools += random_pool(ctx.rng, k, cap, el, 50)
